@@ -86,7 +86,7 @@ func (f *Frame) step(b *ssa.BasicBlock, ins ssa.Instruction, st *State) bool {
 		v := f.val(x.X)
 		xt := x.X.Type()
 		payload := u.box(f.term(v))
-		f.env[x] = Value{T: mk(SIface, "mk-iface", u.typeTag(xt), payload), Ty: x.Type()}
+		f.env[x] = Value{T: mk(SIface, "mk-iface", u.typeTag(xt), payload), Ty: x.Type(), Boxed: xt, BoxedRef: f.term(v)}
 		// boxed payload non-negative
 		u.assume(st.reach, mk(SBool, ">=", payload, intConst(0)))
 
